@@ -174,6 +174,7 @@ def gen_rules(r, tag, console=False, reuse=False, externals=False):
     if externals:
         lines.append('rule r%s_xi { condition: ext_i == 2 or ext_i > 100 }' % tag)
         lines.append('rule r%s_xd { condition: ext_i == 10 or ext_i == 100 or ext_i == 7 }' % tag)     # decimal reading of 010 / 0100 / 007
+        lines.append('rule r%s_xw { condition: ext_i > 4294967296 or ext_i < -4294967296 }' % tag)     # values beyond 32 bits keep all their bits
         lines.append('rule r%s_xs { condition: ext_s contains "ab" }' % tag)
         lines.append('rule r%s_xb { strings: $a = "alpha" condition: ext_b and $a }' % tag)
         lines.append('rule r%s_xf { condition: filesize > ext_i * 10 }' % tag)
@@ -667,7 +668,7 @@ def gen_scenarios(tier):
         for ci in range(3 if quick else 9):
             sid += 1
             text, info = gen_rules(r, "%dx" % sid, externals=True)
-            vi = r.choice([0, 2, 4, 6, 101, "010", "0100", "007", "-0"])
+            vi = r.choice([0, 2, 4, 6, 101, "010", "0100", "007", "-0", 5000000000, -5000000000, 4294967303])
             cext = [("ext_i", str(vi)), ("ext_s", r.choice(["abc", "xyz", "cab"])), ("ext_b", r.choice(["true", "false"]))]
             mode = ci % 3
             if mode == 0:
@@ -675,7 +676,7 @@ def gen_scenarios(tier):
             elif mode == 1:
                 sext = list(cext)                                                   # same values at both stages
             else:
-                sext = [("ext_i", str(r.choice([x for x in [0, 2, 4, 6, 101, "010", "0100"] if x != vi]))), ("ext_s", r.choice(["abd", "zab"])), ("ext_b", r.choice(["true", "false"]))]
+                sext = [("ext_i", str(r.choice([x for x in [0, 2, 4, 6, 101, "010", "0100", 5000000000, -5000000000, 4294967303, 4294967303, 9223372036854775807] if x != vi]))), ("ext_s", r.choice(["abd", "zab"])), ("ext_b", r.choice(["true", "false"]))]
             files = walk_like_scan_dir(build_tree_cached(t, quick), False)
             scs.append({"kind": "compiled", "id": "%d" % sid, "tree": t, "rules": [{"ns": None, "text": text}], "opts": r.choice([["-s", "-r"], ["-r"], ["-g", "-m", "-r"], ["-c", "-r"]]),
                         "p": [r.choice([1, 4, 32])], "compile_ext": cext, "scan_ext": sext, "f2": info["f2"], "single_files": r.sample(files, 3)})
